@@ -1053,7 +1053,21 @@ func jsonPath(msg json.RawMessage, p string) json.Marshaler {
 		if json.Unmarshal(msg, &m) != nil {
 			return msg
 		}
-		return m.jsonPath(p)
+		key := p
+		if i := strings.IndexRune(p, '.'); i >= 0 {
+			key = p[:i]
+		}
+		if _, ok := m[key]; ok || len(m) == 0 {
+			return m.jsonPath(p)
+		}
+		// Without type information a typed map cannot be told from a
+		// struct.  There is no such field, so treat it as a typed map,
+		// where, like for arrays, the path applies to each value.
+		result := make(marshallerArray, 0, len(m))
+		for _, v := range m {
+			result = append(result, jsonPath(v, p))
+		}
+		return result
 	case '[':
 		var arr []json.RawMessage
 		if json.Unmarshal(msg, &arr) != nil {
